@@ -287,3 +287,37 @@ fn recycler_replay() {
         println!("COMPLETED: before {:?}, after {:?}", before, after);
     }
 }
+
+// Native replay for the mark-bit order check (C04, E3e): a mutable vector reachable only through a box and a
+// box reachable only through a mutable vector, then pressure on BOTH slot lists (120 000 live vectors, 120 000
+// live boxes) so that full collections triggered by either list run, then more churn; both must read back.
+#[test]
+fn order_replay() {
+    let program = r#"
+        (define b (box (vector 1 2 3)))
+        (define v (vector 0 (box 42)))
+        (define (make-cell) (let ((c (vector 'a 'b))) (lambda (msg) (if (eq? msg 'get) c (set! c (vector msg msg))))))
+        (define cell (make-cell))
+        (cell 'x)
+        (define (fill-v i acc) (if (= i 120000) acc (fill-v (+ i 1) (cons (vector i) acc))))
+        (define keep-v (fill-v 0 '()))
+        (define (fill-b i acc) (if (= i 120000) acc (fill-b (+ i 1) (cons (box i) acc))))
+        (define keep-b (fill-b 0 '()))
+        (define (churn n) (if (= n 0) 'done (begin (box n) (vector n) (churn (- n 1)))))
+        (churn 200000)
+        (list (vector->list (unbox b)) (unbox (vector-ref v 1)) (vector->list (cell 'get)) (length keep-v) (length keep-b))
+    "#;
+    let mut engine = Engine::new();
+    match engine.compile_and_run_raw_program(program) {
+        Ok(vals) => {
+            let got = vals.last().map(|v| v.to_string()).unwrap_or_default();
+            let want = engine.compile_and_run_raw_program("(list (list 1 2 3) 42 (list 'x 'x) 120000 120000)").unwrap().pop().unwrap().to_string();
+            if got == want {
+                println!("COMPLETED: {}", got);
+            } else {
+                println!("OBSERVED: storage reachable only through a slot of the other list lost its contents across collections: got {} instead of {}", got, want);
+            }
+        }
+        Err(e) => println!("OBSERVED: reading reachable storage failed after collections: {}", e.to_string().chars().take(160).collect::<String>()),
+    }
+}
